@@ -126,10 +126,17 @@ pub fn render_print(p: &PrintStmt, ch: &mut Choices) -> String {
             s.to_string()
         }
     };
-    let num = |v: u32, ch: &mut Choices| match ch.next() % 4 {
-        0 | 1 => format!("{}", v),
-        2 => format!("0x{:X}", v),
-        _ => format!("0b{:b}", v),
+    // every spelling of a constant the assembler accepts in a print statement: decimal, 0x / 0X with digits of either
+    // case, 0b / 0B, zero-padded
+    let num = |v: u32, ch: &mut Choices| match ch.next() % 10 {
+        0 | 1 | 2 => format!("{}", v),
+        3 => format!("0x{:X}", v),
+        4 => format!("0x{:x}", v),
+        5 => format!("0X{:X}", v),
+        6 => format!("0X000{:x}", v),
+        7 => format!("0b{:b}", v),
+        8 => format!("0B{:b}", v),
+        _ => format!("0B00{:b}", v),
     };
     match p {
         PrintStmt::Flags => format!("{} {}", k("print", ch), k("flags", ch)),
@@ -173,7 +180,10 @@ pub fn render_data(d: &DataDecl, ch: &mut Choices) -> String {
     }
 }
 
-const COMMENTS: [&str; 11] = ["; comment", ";mov ax, 5", "; start: hlt ; nested", ";", "; \"quoted\" text", ";;; jmp nowhere", "; 5\" long", "; say \"hi", ";\"", "; it's", "; db \"a;b\" ; \"c"];
+// comments are free text: ASCII, quotes, and multi-byte characters (2-, 3- and 4-byte sequences; a character count and a
+// byte count of such a line differ)
+const COMMENTS: [&str; 17] = ["; comment", ";mov ax, 5", "; start: hlt ; nested", ";", "; \"quoted\" text", ";;; jmp nowhere", "; 5\" long", "; say \"hi", ";\"", "; it's", "; db \"a;b\" ; \"c",
+    "; gr\u{f6}\u{df}e \u{2713}", ";\u{2713}", "; \u{65e5}\u{672c}\u{8a9e} comment \u{1f600}", "; na\u{ef}ve \"\u{fc}", "; \u{2192} jmp \u{e9}", "; load the first operand \u{2713}"];
 
 fn stmt_sep(out: &mut String, lay: &Layout, ch: &mut Choices, is_string_literal_line: bool) {
     let c = ch.next();
